@@ -2,6 +2,7 @@ package gvc
 
 import (
 	"fmt"
+	"time"
 	"go/ast"
 	"go/parser"
 	"runtime/debug"
@@ -179,6 +180,29 @@ func (vc *VC) loopHead(st *State, fr *Frame, h, pred *ssa.BasicBlock, back bool,
 				return
 			}
 			vc.assume(st, t.S)
+		}
+	}
+	if spec != nil {
+		for _, c := range spec.Unfolds {
+			ec := &evalCtx{vc: vc, now: st, old: st.ctx.old, pkg: vc.fn.Pkg.Pkg, fn: vc.fn}
+			base := vc.baseEnv(st.ctx)
+			e2 := *env
+			root := &e2
+			for root.parent != nil {
+				p := *root.parent
+				root.parent = &p
+				root = &p
+			}
+			root.parent = base
+			ec.env = &e2
+			vc.pure++
+			f, err := ec.unfold(c.Text)
+			vc.pure--
+			if err != nil {
+				vc.fail(fmt.Errorf("%s:%d: %v", c.File, c.Line, err))
+				return
+			}
+			vc.assume(st, f)
 		}
 	}
 	// automatic invariant: counter phis  i = c ; i = i + k (k>0)  =>  i >= c
@@ -494,6 +518,7 @@ func NewVC(P *Program, fn *ssa.Function, blk *Block, opt Options) *VC {
 		vc.MaxPaths = 20000
 	}
 	vc.declared["mark0"] = true
+	vc.deadline = time.Now().Add(150 * time.Second)
 	for _, im := range P.Immutable {
 		vc.markImmutable(im)
 	}
@@ -642,6 +667,15 @@ func Verify(P *Program, blk *Block, opt Options) (res *Result) {
 				vc.assume(st, t.S)
 			}
 		}
+	}
+	// axioms of the group `always` (pure facts about spec functions) are part of every VC
+	for _, c := range P.Axioms["always"] {
+		t, err := vc.evalClause(ctx, st, st, c.Text, nil)
+		if err != nil {
+			res.Err = fmt.Errorf("%s:%d: %v", c.File, c.Line, err)
+			return res
+		}
+		vc.assume(st, t.S)
 	}
 	// handler twins: the contract speaks about the state before the fetch
 	pre := st
@@ -793,6 +827,36 @@ func (vc *VC) atReturn(st *State, fr *Frame, rs []T) {
 	}
 	if blk.FailsIff != nil {
 		vc.oblige(st, "fails_iff.all", "", not(vc.failsCond(st)), blk.FailsIff, "")
+	}
+	if blk.RetClosure != "" && len(rs) == 1 {
+		// `returns closure`: the value returned is that function literal and
+		// its captured variables hold the stated values
+		name := blk.RetClosure
+		if !strings.Contains(strings.SplitN(name, "(", 2)[0], ".") || strings.HasPrefix(name, "(") {
+			name = shortPkg(vc.fn.Pkg.Pkg.Path()) + "." + name
+		}
+		ci := vc.closureByRef[rs[0].S]
+		if ci == nil || ci.fn != vc.P.Funcs[name] {
+			vc.oblige(st, "returns-closure", "literal", "false", nil, "")
+		} else {
+			for i, fv := range ci.fn.FreeVars {
+				text, ok := blk.RetBinds[fv.Name()]
+				if !ok || i >= len(ci.bindings) {
+					vc.oblige(st, "returns-closure", fv.Name(), "false", nil, "")
+					continue
+				}
+				want, err := vc.evalClause(st.ctx, st, vc.entry, text, env)
+				if err != nil {
+					vc.fail(fmt.Errorf("%s:%d: %v", blk.File, blk.Line, err))
+					return
+				}
+				have := ci.bindings[i]
+				if pt, isPtr := fv.Type().Underlying().(*types.Pointer); isPtr {
+					have = vc.loadAt(st, ci.bindings[i], pt.Elem())
+				}
+				vc.oblige(st, "returns-closure", fv.Name(), eq(have.S, want.S), nil, "")
+			}
+		}
 	}
 	if blk.Fresh && len(rs) == 1 {
 		vc.oblige(st, "ensures", "fresh", and(app(">", app("root", rs[0].S), vc.entry.mark), not(eq(rs[0].S, "0"))), nil, "")
